@@ -59,6 +59,12 @@ CHECKS = {
         text="Seeded fold geometries (period/tsamp, accel, nbins, nints, nbands incl. non-dividing), DMs and two gulps per scenario on Filterbank.fold, plus TimeSeries.fold; every cell's hit count and mean is compared with a per-sample model of (sub-integration, sub-band, phase bin), totals with (nsamps-maxdelay)*nchans, the two gulps bitwise with each other, and a synthetic periodic train must occupy one bin. Kernel calls are domain-guarded so a mis-addressed block is reported, not executed.",
         note="Margin rule: scenarios whose phase is within 1e-4 bin of an edge (or whose integer indices hinge on float rounding) are rejected, so evaluation order cannot decide a verdict. Full-range folds only. Delays from the library (C09).",
     ),
+    "C16": dict(
+        level="exploration", ref="DESIGN.md §4 C16",
+        technique="deterministic simulation: seeded call histories on the RFIMask state machine vs a set model, and clean_rfi runs under two chunkings on a simulated disk with read/write faults vs an array model of the cleaned file; ddmin replay",
+        text="Mask histories (apply_mask/apply_method/apply_funcn in any order and multiplicity) are checked after every call against Python-set models (closed-interval membership of channel centres, thresholded z-scores with IQRM lag structure, custom functions): chan_mask is exactly the union of everything flagged and never shrinks; the HDF5 round trip reproduces all arrays/threshold/header scalars. clean_rfi outputs are parsed independently: masked channels equal the mask value in every block, everything else bit-identical, for two gulps; faults assert raises-or-exact.",
+        note="z-scores come from the library's estimate_zscore (estimators belong to C15); margin rule keeps decisions away from the threshold and from channel centres. h5py runs real and fault-free.",
+    ),
     "C17": dict(
         level="exploration", ref="DESIGN.md §4 C17",
         technique="deterministic simulation of call histories: seeded update_dm/update_period sequences checked after every call against a one-step reference (fresh cube, single update) and rotation/idempotence/restore invariants; ddmin replay (no fault applies)",
